@@ -117,8 +117,9 @@ def build_fits_wcs(I, g):
 
         def lt(tt):
             return DistortionLookupTable(tt.copy(), (3.0, 3.0), (nx / 2.0, ny / 2.0), (nx / 3.0, ny / 3.0))
-        if L['which'] in ('cpdis', 'both'):
+        if L['which'] in ('cpdis', 'both', 'cpdis1'):
             w.cpdis1 = lt(tab)
+        if L['which'] in ('cpdis', 'both', 'cpdis2'):
             w.cpdis2 = lt(-0.5 * tab.T)
         if L['which'] in ('det2im', 'both'):
             w.det2im1 = lt(0.5 * tab)
@@ -128,7 +129,7 @@ def build_fits_wcs(I, g):
 
 
 def gen_lut(rng):
-    return {'which': rng.choice(['cpdis', 'det2im', 'both']), 'a': dyr(rng, 0.1, 0.4, 6) * rng.choice([-1, 1]),
+    return {'which': rng.choice(['cpdis', 'det2im', 'both', 'cpdis1', 'cpdis2']), 'a': dyr(rng, 0.1, 0.4, 6) * rng.choice([-1, 1]),
             'b': dyr(rng, -0.05, 0.05, 8), 'c': dyr(rng, -0.05, 0.05, 8)}
 
 
